@@ -25,6 +25,8 @@ import Lemmas.Table
 import Lemmas.TableSel
 import Lemmas.TableInfo
 import Lemmas.TableAdj
+import Lemmas.TableMp
+import Lemmas.TableMpCalc
 
 namespace C02T
 open Tbl
@@ -256,6 +258,58 @@ theorem path_listings_exact {π : Type} (O : DestOps δ ρ) (h : Pfx → Nat) (o
     · rintro ⟨d, hd, hx⟩
       exact ⟨(p, d), by rw [mem_entries_iff hw, ha]; exact hd, List.mem_map.mpr ⟨x, hx, rfl⟩⟩
 
+/-! ### the multipath notification stream (`Update.GetMultiBestPathDiff`, multipath × ADD-PATH receive) -/
+
+/-- **The multipath diff is the set difference on (source, path-id) keys.**  For the path lists of a
+destination before and after one `Calculate` (one path per source and path-id in each):
+the `withdraw` list is exactly the old multipath members whose (source, path-id) is not in the new
+multipath set, and the `update` list is exactly the new members whose (source, path-id) is not in
+the old set or is there with other attributes.  Two equal-cost paths of ONE source (different path
+ids) are two members. -/
+theorem multipath_diff_is_set_difference (oldL newL : List TPath) (ho : KeysNodup oldL) :
+    (mpDiff oldL newL).2 =
+      (multiBest oldL).filter (fun o => !((multiBest newL).any (fun n => n.keyEq o))) ∧
+    ∀ n, n ∈ (mpDiff oldL newL).1 ↔
+      n ∈ multiBest newL ∧ ∀ o ∈ multiBest oldL, n.keyEq o = true → n.attrEq o = false :=
+  ⟨mpWithdraw_is_set_difference _ _ (keysNodup_multiBest oldL ho),
+   fun n => mem_mpUpdate _ _ (keysNodup_multiBest oldL ho) n⟩
+
+/-- replaying the notifications of a sequence of destination states, in order, on a consumer -/
+def mpReplay (prev : List TPath) (c : MpConsumer) : List (List TPath) → MpConsumer
+  | [] => c
+  | l :: r => mpReplay l (mpApply c (mpDiff prev l)) r
+
+/-- the successive path lists of one destination under a history of `Calculate` steps -/
+def destStates (d : TDest) : List TOp → List (List TPath)
+  | [] => []
+  | op :: r => (locCalc d op).paths :: destStates (locCalc d op) r
+
+def destFinal (d : TDest) : List TOp → TDest
+  | [] => d
+  | op :: r => destFinal (locCalc d op) r
+
+/-- one step: a consumer that mirrors the old multipath set mirrors the new one after applying the
+notification -/
+theorem multipath_stream_step (oldL newL : List TPath) (ho : KeysNodup oldL) (hn : KeysNodup newL) :
+    mpApply (mpView (multiBest oldL)) (mpDiff oldL newL) = mpView (multiBest newL) :=
+  mpApply_view _ _ (keysNodup_multiBest oldL ho) (keysNodup_multiBest newL hn)
+
+/-- **The multipath notification stream replayed in order reproduces the multipath set**: for every
+history of announcements / implicit replacements / withdrawals on a destination (any number of
+sources, any number of path ids per source), a consumer that starts in step with the table and
+applies every `GetMultiBestPathDiff` result in order holds, at the end (hence after every step),
+exactly the table's multipath set keyed by (source, path-id). -/
+theorem multipath_stream_replay (d : TDest) (hd : KeysNodup d.paths) (ops : List TOp) :
+    mpReplay d.paths (mpView (multiBest d.paths)) (destStates d ops) =
+      mpView (multiBest (destFinal d ops).paths) := by
+  induction ops generalizing d with
+  | nil => rfl
+  | cons op r ih =>
+    have hn := locCalc_keysNodup d op hd
+    simp only [destStates, destFinal, mpReplay]
+    rw [multipath_stream_step d.paths (locCalc d op).paths hd hn]
+    exact ih (locCalc d op) hn
+
 /-! ### partial operations on a multi-family Adj-RIB-In (`AdjRib.Drop / StaleAll / DropStale (rfList)`) -/
 
 /-- **Granularity**: an operation on a subset of the families leaves every OTHER family's table
@@ -390,6 +444,29 @@ example :
         (adjOn [4] (fun x => (update adjOps hConst x.1 p1 (ann 1 0 50 5), x.2)) (adjRibStaleAll [4] aEx))).fam 4).map
       (fun x => ((entries x.1).map (fun e => e.2.paths.length), x.2)) = some ([1], 1) := by
   decide
+
+/-- multipath × ADD-PATH: source 2 has two equal-cost paths (path ids 1 and 2, LOCAL_PREF 200 in the
+upper half of the rank), source 5 a third; the member sorted FIRST is withdrawn: exactly that one is
+withdrawn from the consumers, nothing is re-announced, and the sibling of the same source stays -/
+def mpath (src rid lp age tag : Nat) : TPath :=
+  { src := src, rid := rid, rank := lp * 4294967296 + age, tag := tag, lid := tag, rej := false }
+
+example :
+    mpDiff [mpath 2 1 200 9 1, mpath 2 2 200 8 2, mpath 5 0 200 7 3, mpath 6 0 100 6 4]
+           [mpath 2 2 200 8 2, mpath 5 0 200 7 3, mpath 6 0 100 6 4]
+      = ([], [mpath 2 1 200 9 1]) := by
+  decide
+/-- … a better path shrinks the set: every old member is withdrawn, the new one announced -/
+example :
+    mpDiff [mpath 2 1 200 9 1, mpath 2 2 200 8 2]
+           [mpath 6 0 300 5 4, mpath 2 1 200 9 1, mpath 2 2 200 8 2]
+      = ([mpath 6 0 300 5 4], [mpath 2 1 200 9 1, mpath 2 2 200 8 2]) := by
+  decide
+/-- hypotheses of `multipath_stream_replay` are satisfiable: the fresh destination, any history -/
+example (p : Pfx) (ops : List TOp) :
+    mpReplay [] (fun _ => none) (destStates (locOps.fresh p) ops) =
+      mpView (multiBest (destFinal (locOps.fresh p) ops).paths) :=
+  multipath_stream_replay (locOps.fresh p) (by simp [KeysNodup, locOps]) ops
 
 end Examples
 
